@@ -252,6 +252,20 @@ def compare_observers(ctx, ns, m, deep=True):
             return (f"L1/values/disagrees-with-items/branches={br}", f"{short(gvs)}")
     if any("​" in k for k, _ in ns.items(True)):
         return ("L1/items/clash-mark-visible", short(list(ns.keys(True))))
+    # derived views: flat namespace, keys sorted by depth
+    leaf_items = list(ns.items())
+    flat = vars(ns.as_flat())
+    n += 1
+    if list(flat) != [k for k, _ in leaf_items] or any(flat[k] is not v for k, v in leaf_items):
+        return ("L1/as_flat/disagrees-with-items", f"{short(flat)} vs {short(leaf_items)}")
+    for br in (False, True):
+        sk = ns.get_sorted_keys(br)
+        n += 1
+        depths = [k.count(".") for k in sk]
+        if depths != sorted(depths, reverse=True):
+            return (f"L1/get_sorted_keys/not-by-descending-depth/branches={br}", short(sk))
+        if len(set(sk)) != len(sk) or not {k for k, _ in leaf_items if not k.split(".")[-1].startswith("__")} <= set(sk) or not set(sk) <= set(ns.keys(True)):
+            return (f"L1/get_sorted_keys/wrong-key-set/branches={br}", f"{short(sk)} leaves {short([k for k, _ in leaf_items])}")
     n += 1
     if bool(ns) != bool(exp_dict):
         return ("L1/bool/mismatch", f"bool={bool(ns)} model={bool(exp_dict)}")
@@ -273,6 +287,12 @@ def compare_observers(ctx, ns, m, deep=True):
             return (f"L1/get/disagrees-with-getitem/{cl}", f"get({k!r})={short(g2)} []={short(gv)}")
         if k not in set(ns.keys(True)):
             return (f"L1/keys/present-key-missing/{cl}", k)
+        try:
+            pv, parent, leaf = ns.get_value_and_parent(k)
+        except Exception as ex:
+            return (f"L1/get_value_and_parent/raised-for-present-key/{cl}", f"{k!r}: {type(ex).__name__}: {ex}")
+        if pv is not gv or not isinstance(parent, Namespace) or parent[leaf] is not gv:
+            return (f"L1/get_value_and_parent/disagrees-with-getitem/{cl}", f"{k!r}: {short(pv)} parent {short(parent)} leaf {leaf!r}")
         # step by step addressing
         parts = k.split(".")
         if len(parts) > 1:
